@@ -466,6 +466,21 @@ def method(ip, base, attr, args, kw):
         if attr == "pop":
             return base.pop(*args)
         raise OutsideFragment(f"dict.{attr}")
+    if isinstance(base, (set, frozenset)):
+        from .kpe import _hash
+        if attr == "add":
+            base.add(_hash(args[0]))
+            return None
+        if attr in ("discard", "remove"):
+            getattr(base, attr)(_hash(args[0]))
+            return None
+        if attr == "update":
+            for a in args:
+                base.update(_hash(x) for x in ip.iterate(a))
+            return None
+        if attr == "copy":
+            return set(base)
+        raise OutsideFragment(f"set.{attr}")
     if isinstance(base, tuple):
         if attr == "index":
             return base.index(args[0])
